@@ -225,7 +225,24 @@ def run_vec(cx, case):
         cx.bad("vector_to_circuit", f"exception/{type(e).__name__}:{slug(e)}", sig, "", case,
                {"err": repr(e)[:300], "mapped_vector": repr(mv)})
         return
+    # the caller's vector must not be touched, and a second use of the SAME object must give the same encoding
+    acc.ev()
+    if list(np.asarray(arg).tolist()) != vec:
+        cx.bad("get_mapped_vector", "argument-mutated", sig, "", case, {"before": vec, "after": np.asarray(arg).tolist()})
+    else:
+        try:
+            with warnings.catch_warnings():
+                warnings.simplefilter("ignore")
+                mv2 = get_mapped_vector(arg, m, utd)
+            if [int(x) for x in mv2] != [int(x) for x in mv]:
+                cx.bad("get_mapped_vector", "second-call-on-same-object-differs", sig, "", case,
+                       {"first": [int(x) for x in mv], "second": [int(x) for x in mv2]})
+        except Exception as e:
+            cx.bad("get_mapped_vector", f"second-call-exception/{type(e).__name__}", sig, "", case, {"err": repr(e)[:200]})
+    mv_before = [int(x) for x in mv]
     bits = compare(cx, "get_mapped_vector", case, m, n, utd, N, spin, circ, vec, sig, grp)
+    if [int(x) for x in mv] != mv_before:
+        cx.bad("vector_to_circuit", "argument-mutated", sig, "", case, {"before": mv_before, "after": [int(x) for x in mv]})
     if bits is not None:
         acc.out((m, tuple(bits)))
         if list(bits) + [0] * (n - len(bits)) != vec:
